@@ -22,6 +22,11 @@ func c12World(tp *Tape, env *Env) (*Plan, *Violation) {
 	} else {
 		cfg.Handlers = drawHandlers(tp, 2)
 	}
+	if tp.Chance(30, "withfaults") {
+		// failing statements on the way: an error is not the end, and the end reached after errors is as final as any
+		cfg.Faults, cfg.WFault = tp.Int(1, 3, "nfaults"), 3
+		env.St.probe("world_with_failing_statements_on_the_way")
+	}
 	g := &gen{tp: tp, cfg: cfg}
 	prog := g.program()
 	if tp.Chance(15, "deepchain") {
